@@ -10,6 +10,17 @@ with Views() as v:
     linked = os.path.join(v.dir, "all.bc")
     subprocess.run([LLVM_LINK] + [v.units[k] for k in sorted(v.units)] + ["-o", linked], check=True)
     out = subprocess.run(["llvm-nm-14", "--defined-only", linked], capture_output=True, text=True, check=True).stdout
+    from lhsa.build import IRX
+    from lhsa.ir import Module
+    from lhsa.fingerprint import fingerprint
+    import json
+    js = os.path.join(v.dir, "all.json")
+    subprocess.run([IRX, linked, js], check=True)
+    m = Module(js)
+    fps = {}
+    for f in m.defined():
+        fps.setdefault(f.cname, []).append(fingerprint(f))
+    json.dump({k: sorted(set(x)) for k, x in sorted(fps.items())}, open(os.path.join(V, "sa", "lhsa", "known_fingerprints.json"), "w"), indent=0)
 names = sorted({re.sub(r"\.\d+$", "", l.split()[-1]) for l in out.splitlines() if len(l.split()) >= 2 and l.split()[-2] in ("T", "t")})
 open(os.path.join(V, "sa", "lhsa", "known_functions.txt"), "w").write("\n".join(names) + "\n")
 print(len(names), "functions")
